@@ -294,7 +294,23 @@ def run_C07(run):
                       "coqc -Q /verif/coq/lib GLMV -Q /verif/coq/models GLMM -Q /verif/_work/C07 W {P_C07_h2f.v, P_C07_f2h.v, Properties_C07.v}; tools/corr/impl_C07 | coq/extract/corr_model")
 
 
-TABLE = {"C07": run_C07, "C01": run_C01, "C13": run_C13, "C09": run_C09, "C04": run_C04, "C02": run_C02, "C10": run_C10, "C08": run_C08, "C17": run_C17, "C12": run_C12}
+# ------------------------------------------------------------------------------------------ C05
+def run_C05(run):
+    shards = ["C05/P_C05_w16_%d.v" % k for k in range(8)]
+    run.prove([], ["C05/A_C05_defs.v"], ["C05/P_C05_w8.v", "C05/P_C05_general.v"] + shards, "C05/Properties_C05.v", timeout=1500)
+    run.run_corr("impl_C05.cpp", [run.seed, run.tier])
+    fails = oracle_sweep(run, "C05", [("all", [])], run.tier, opt="-O1")
+    run.fails = run.triage(fails)
+    run.assumptions = ["32/64-bit element types: bitCount, findLSB, findMSB, bitfieldReverse and bitfieldInsert are NOT theorems (no lifting lemma for the additive ladders was completed); they are covered by the correspondence check and the bit-by-bit oracle on single-bit, run-of-ones, boundary and random patterns (testing)",
+                       "the vector overloads are tied to the scalar model by the correspondence driver (one lane carries the operand) and by C01's lift theorem for bitfieldExtract/Insert/Reverse",
+                       "GLM_HAS_BITSCAN_WINDOWS paths (MSVC intrinsics) are not compiled here and not modelled"]
+    run.samples.append("correspondence: all 256 values of int8/uint8 exhaustively; 2500 structured values (0, ~0, single bit, single zero, run of ones, INT_MIN/MAX, 0x55.., 0xAA.., small, random) for 16/32/64-bit; random (offset,bits) fields incl. zero-width and full-width; scalar and vector overloads")
+    return run.finish(TRUST_H + ["oracle_C05.cpp: loop-based one-bit-at-a-time references (violation search; sole check of the 32/64-bit items above)"],
+                      "theorems: exhaustive over all 8- and 16-bit values (and all 8-bit fields); all 32-bit operand pairs for carry/borrow/extended multiplication; all widths/values/fields<32 bits for unsigned bitfieldExtract",
+                      "coqc (A_C05_defs, P_C05_w8, P_C05_w16_0..7, P_C05_general, Properties_C05); tools/corr/impl_C05 | coq/extract/corr_model")
+
+
+TABLE = {"C05": run_C05, "C07": run_C07, "C01": run_C01, "C13": run_C13, "C09": run_C09, "C04": run_C04, "C02": run_C02, "C10": run_C10, "C08": run_C08, "C17": run_C17, "C12": run_C12}
 
 
 def replay(pid, path):
